@@ -278,10 +278,10 @@ Qed.
 
 (* multiplying / dividing a balance by a plain number scales every commodity *)
 Lemma bden_map_mul cp b a c :
-  acomm a = None -> (forall x, In x b -> acomm x <> None \/ c = None) ->
+  acomm a = None ->
   bden (map (fun x => amt_mul cp x a) b) c == bden b c * aq a.
 Proof.
-  intros Ha _. induction b as [|x b IH]; cbn [map bden]; [ring|].
+  intros Ha. induction b as [|x b IH]; cbn [map bden]; [ring|].
   rewrite IH.
   assert (Hc : acomm (amt_mul cp x a) = acomm x).
   { unfold amt_mul. cbn [acomm]. rewrite Ha. destruct (acomm x); reflexivity. }
@@ -480,4 +480,44 @@ Corollary aeval_addsub_order_free cp e v v' c :
 Proof.
   intros Ht H H'. rewrite (aeval_addsub_exact _ _ _ _ c Ht H), (aeval_addsub_exact _ _ _ _ c Ht H').
   reflexivity.
+Qed.
+
+(* ---- multi-commodity balances times / divided by a plain number: every commodity scales ---- *)
+Lemma bal_mul_scalar_exact cp b a r c :
+  acomm a = None -> bal_mul cp b a = Ok r -> bden r c == bden b c * aq a.
+Proof.
+  intros Ha. unfold bal_mul. destruct (bal_is_realzero b) eqn:Hz.
+  - intros [= <-]. rewrite (bal_is_realzero_bden b c Hz). ring.
+  - destruct (is_realzero a) eqn:Hza.
+    + intros [= <-]. rewrite bden_of_amt. apply is_realzero_spec in Hza. unfold at_comm.
+      dcase; rewrite ?Hza; ring.
+    + rewrite Ha. intros [= <-]. apply bden_map_mul. exact Ha.
+Qed.
+
+Lemma bden_map_div cp a : acomm a = None -> forall b r c,
+  map_res (fun x => amt_div cp x a) b = Ok r -> bden r c == bden b c / aq a.
+Proof.
+  intros Ha. induction b as [|x b IH]; intros r c; cbn [map_res bden].
+  - intros [= <-]. cbn [bden]. unfold Qdiv. ring.
+  - destruct (amt_div cp x a) as [y|] eqn:Hy; cbn [bind]; [|discriminate].
+    destruct (map_res (fun x0 => amt_div cp x0 a) b) as [ys|] eqn:Hys; cbn [bind]; [|discriminate].
+    intros [= <-]. cbn [bden]. rewrite (IH _ c eq_refl).
+    assert (Hc : acomm y = acomm x).
+    { unfold amt_div in Hy. destruct (is_realzero a); [discriminate|]. injection Hy as <-. cbn [acomm].
+      rewrite Ha. destruct (acomm x); reflexivity. }
+    apply amt_div_exact in Hy as [Hnz Hy]. rewrite Hc.
+    dcase; rewrite ?Hy; unfold Qdiv; ring.
+Qed.
+
+Lemma bal_div_scalar_exact cp b a r c :
+  acomm a = None -> bal_div cp b a = Ok r -> bden r c == bden b c / aq a.
+Proof.
+  intros Ha. unfold bal_div. destruct (bal_is_realzero b) eqn:Hz.
+  - intros [= <-]. rewrite (bal_is_realzero_bden b c Hz). unfold Qdiv. ring.
+  - destruct (is_realzero a); [discriminate|]. rewrite Ha. apply bden_map_div. exact Ha.
+Qed.
+
+Lemma bal_div_zero cp b a : bal_is_realzero b = false -> aq a == 0 -> bal_div cp b a = Err EDivZero.
+Proof.
+  intros Hb Ha. unfold bal_div. rewrite Hb. apply is_realzero_spec in Ha. rewrite Ha. reflexivity.
 Qed.
